@@ -72,6 +72,23 @@ fn strategy() -> impl Strategy<Value = Case> {
         })
 }
 
+/// Kt across 2^16 (and up to 2^17 and beyond), Z near the 8-bit maximum so that blocks stay small.
+fn strategy_large() -> impl Strategy<Value = Case> {
+    (
+        prop_oneof![3 => 65_000usize..=68_500, 2 => 60_000usize..=140_000, 1 => 131_000usize..=132_500, 1 => 30_000usize..=66_000],
+        prop_oneof![3 => 200usize..=255, 1 => 128usize..=255, 1 => Just(255usize)],
+        prop_oneof![Just((1usize, 1usize)), Just((1, 2)), Just((4, 1)), Just((4, 2)), Just((2, 3))],
+        any::<u64>(),
+        any::<u64>(),
+    )
+        .prop_map(|(kt, z, (al, tu), rr, seed)| {
+            let t = al * tu;
+            let n = 1 + (rr % tu as u64) as usize;
+            let r = if rr % 3 == 0 { t } else { 1 + ((rr >> 8) % t as u64) as usize };
+            Case { al, tu, n, kt, z, r, class: rr % 5, seed }
+        })
+}
+
 fn check(c: &Case, st: &mut Stats) -> Result<(), String> {
     let (t, f) = (c.t(), c.f());
     let data = make_data(data_class_from(if c.class < 3 { 4 } else { 0 }), c.seed, f);
@@ -87,6 +104,7 @@ fn check(c: &Case, st: &mut Stats) -> Result<(), String> {
     st.class_if(c.n > 1, "N>1");
     st.class_if(c.z > 1, "Z>1");
     st.class_if(c.z > 128, "Z>128");
+    st.class_if(c.kt > 65535, "Kt >= 2^16");
     if c_sub || c_blk || c_pad {
         st.nt(fnv_u64s(&[f as u64, t as u64, c.z as u64, c.n as u64, c.al as u64]));
     }
@@ -258,9 +276,13 @@ fn signature(_: &Case, msg: &str) -> String {
 }
 
 pub fn run(ctx: &Ctx, rep: &mut Report) {
-    rep.rule = "generated (F, T, Z, N, Al, data): Al in {1,2,3,4,8}, T/Al in 1..=24, N in 1..=T/Al, Kt in 1..=90 (weighted; also 120..135 and 250..700), Z in 1..=min(Kt,12) and in one case of eight 1..=min(Kt,255), F=(Kt-1)*T+r, biased to Kt mod Z != 0 and (T/Al) mod N != 0; data position-coded or random. Plus an exhaustive sweep of all (Kt <= 8 quick / 20 thorough, Z <= Kt, T/Al <= 5 quick / 8 thorough, N <= T/Al, Al in {1,4}). Oracle: reference layout by index formula (Partition, block/sub-block/symbol offsets) for every source packet's (SBN, ESI, payload); partition() and calculate_block_offsets() against the reference; then the decoder is fed all source packets, an erasure pattern + repair packets, one block decoder with all source packets, and one block decoder with a single batch (erasures + H+3 extra repair symbols, which enters the binary-only fast path), and must return the object / block. Non-trivial = N>1 with TL != TS, or Z>1 with KL != KS, or F mod T != 0; distinct by (F,T,Z,N,Al).".into();
+    rep.rule = "generated (F, T, Z, N, Al, data): Al in {1,2,3,4,8}, T/Al in 1..=24, N in 1..=T/Al, Kt in 1..=90 (weighted; also 120..135 and 250..700), Z in 1..=min(Kt,12) and in one case of eight 1..=min(Kt,255), F=(Kt-1)*T+r, biased to Kt mod Z != 0 and (T/Al) mod N != 0; data position-coded or random. Plus a group of large objects (Kt in 30 000..140 000 weighted to 65 000..68 500, Z in 128..=255, T <= 8: running symbol indices beyond 2^16). Plus an exhaustive sweep of all (Kt <= 8 quick / 20 thorough, Z <= Kt, T/Al <= 5 quick / 8 thorough, N <= T/Al, Al in {1,4}). Oracle: reference layout by index formula (Partition, block/sub-block/symbol offsets) for every source packet's (SBN, ESI, payload); partition() and calculate_block_offsets() against the reference; then the decoder is fed all source packets, an erasure pattern + repair packets, one block decoder with all source packets, and one block decoder with a single batch (erasures + H+3 extra repair symbols, which enters the binary-only fast path), and must return the object / block. Non-trivial = N>1 with TL != TS, or Z>1 with KL != KS, or F mod T != 0; distinct by (F,T,Z,N,Al).".into();
     let n = ctx.tier.pick(200_000u64, 2_000_000);
     rep.absorb("generated", run_sharded("C05", "generated", ctx.seed, n, 32, strategy, check, to_json, signature));
+    // large objects: more than 2^16 symbols in total, spread over many blocks of a few hundred
+    // symbols (nothing in the small groups makes a running symbol index or byte offset large)
+    let n = ctx.tier.pick(32u64, 600);
+    rep.absorb("large", run_sharded("C05", "large", ctx.seed, n, 16, strategy_large, check, to_json, signature));
     // exhaustive small sweep
     let (kt_max, tu_max) = match ctx.tier {
         Tier::Quick => (8usize, 5usize),
